@@ -508,7 +508,9 @@ func (t *Trie) delete(n trienode.Node, prefix, key *Path) (trienode.Node, bool, 
 		// containing the other child as the child
 		return &trienode.EdgeNode{Path: bitPrefix, Child: n.Children[other], Flags: trienode.NewNodeFlag()}, true, nil
 	case *trienode.ValueNode:
-		t.nodeTracer.onDelete(key)
+		// key is what is left of the path below prefix (empty for a leaf hanging off a binary
+		// node); the node is stored under its full path
+		t.nodeTracer.onDelete(new(Path).Append(prefix, key))
 		return nil, true, nil
 	case *trienode.HashNode:
 		child, err := t.resolveNode(n, *prefix)
